@@ -125,6 +125,16 @@ func checkC06(c *Ctx) {
 			c.borrowKinds("C05", func() { c.c05Sibling(fo) }, "R06.2", sib+".Get:failure-write-own-cell", []string{"R05.6"}, "failure-ttl-from-context")
 		}
 	}
+	// "SkipRead forces a rebuild whose result is still stored" — and returned: a Get under SkipRead is a miss like any other (the
+	// backend answers ErrNotFound); a frontend that skips the read itself leaves "no error" behind, which reads as "nothing to
+	// wait for": Get then returns a value nobody built (C02 R02.1) and the single read of the SyncRead section is gone (C05 R05.1)
+	for _, sib := range siblings {
+		if fo := c.failover(sib); fo.Err == nil {
+			fo := fo
+			c.borrowKinds("C02", func() { c.c02Sibling(fo) }, "R06.5", sib+".Get:skipread-is-a-miss", []string{"R02.1"}, "fabricated-Zero", "fabricated-ReadZero")
+			c.borrowKinds("C05", func() { c.c05Sibling(fo) }, "R06.5", sib+".Get:skipread-read-issued", []string{"R05.1"}, "read-count")
+		}
+	}
 	c.borrowKinds("C10", func() { c.c10ExpireAt() }, "R06.1", "backends.Write:stored-expiry", []string{"R10.3"}, "stored-E", "no-ttl", "expiry-value")
 	c.c06WithTTL()
 	c.c06Accessors()
@@ -201,7 +211,11 @@ func (c *Ctx) c06Sibling(fo *FO) {
 	r.Count("builds_checked:"+cons, nBuild)
 	r.Count("background_builds:"+cons, nBg)
 	r.Count("refresh_writes:"+cons, nRefresh)
-	if nBuild == 0 || nRefresh == 0 || nBg == 0 {
+	if nBuild > 0 && nRefresh > 0 && nBg == 0 {
+		// stale values are refreshed but no path ever hands the build to a goroutine: every update of a stale value runs in the
+		// caller's goroutine under the caller's context — cancelled and deadlined by it
+		r.Bad("R06.4", cons, "stale-update-never-detached", c.declPos(cons), "no path runs the build of a refreshed stale value in the background under a detached context: the update is always synchronous under the caller's context (e.g. the refresh no longer resets the error that decides between the two)", nil)
+	} else if nBuild == 0 || nRefresh == 0 || nBg == 0 {
 		r.Unknown("R06.1", cons, fmt.Sprintf("vacuous: builds=%d refreshes=%d background=%d", nBuild, nRefresh, nBg))
 	}
 	for _, rule := range []string{"R06.1", "R06.2", "R06.4"} {
